@@ -55,6 +55,10 @@ type Input struct {
 	Version  string `json:"version"` // "" = nil (package default)
 	Callback bool   `json:"callback"`
 	Path     string `json:"path,omitempty"` // kind C: file path relative to the scratch tree
+	// AbortAt > 0: the caller's error callback panics when it is called for the
+	// AbortAt-th time (a caller aborting the parse from inside its callback);
+	// the pipeline recovers and records the abort as its outcome
+	AbortAt int `json:"abort_at,omitempty"`
 }
 
 type Task struct {
